@@ -1149,7 +1149,7 @@ func (t *Tr) loopEnv(li *loopInfo, st *State) *Env {
 				}
 			case *ssa.DebugRef:
 				if obj := x.Object(); obj != nil {
-					if _, isVar := obj.(*types.Var); isVar {
+					if v, isVar := obj.(*types.Var); isVar && !v.IsField() {
 						t.bindVar(e, obj.Name(), x.X, x.IsAddr)
 					}
 				}
